@@ -59,6 +59,8 @@ def plan(tier, seed):
     specs.append({"kind": "families"})
     specs.append({"kind": "big", "count": 2 if tier == "quick" else 12})
     specs.append({"kind": "signprobe", "count": 40 if tier == "quick" else 600})
+    for T in ([4] if tier == "quick" else [2, 4, 8, 16]):
+        specs.append({"kind": "shared_threads", "threads": T, "count": 12 if tier == "quick" else 80})
     cfgs = CONFIGS[:8] if tier == "quick" else CONFIGS
     for c in cfgs:
         s = {"kind": "corpus", "config": c["name"], "seed": seed, "seed_fixed": True, "count": 500 if tier == "quick" else 3000}
@@ -348,7 +350,67 @@ def run_corpus(spec, rec, lib):
     }
 
 
+def run_shared_threads(spec, rec, lib):
+    """the serialization is a function of the VALUE: several threads serialising the same (shared) object at the same
+    time, and the same object afterwards, all obtain the reference bytes; the object's keys arrive in random
+    (unsorted) insertion order, as a caller-built document would"""
+    import threading
+
+    from ..monitors import sysmon
+
+    rng = random.Random(spec["seed"])
+    C = lib.common
+    T = spec["threads"]
+    for i in range(spec["count"]):
+        v = jsonvals.shuffled({"packages": {"%s-%d" % (jsonvals.rand_string(rng, 6), j): jsonvals.rand_value(rng, 0, 3, 4)
+                                            for j in range(rng.randint(20, 120))},
+                               "info": jsonvals.rand_value(rng, 0, 3, 4), "z": [{"b": 1, "a": 2}], "a": None}, rng)
+        if has_pair(v):
+            continue
+        try:
+            ref = canonjson.canon(v)
+        except canonjson.Unsupported:
+            continue
+        before = boundary.fingerprint(v)
+        results = [[] for _ in range(T)]
+        start = threading.Barrier(T)
+
+        def worker(t):
+            start.wait()
+            for _ in range(3):
+                results[t].append(boundary.call(lib, C.canonserialize, v))
+
+        inj = sysmon.YieldInjector(lib.pkg_dir, random.Random(spec["seed"] + i), prob=0.2)
+        with inj:
+            ths = [threading.Thread(target=worker, args=(t,)) for t in range(T)]
+            for th in ths:
+                th.start()
+            for th in ths:
+                th.join(300)
+        if any(th.is_alive() for th in ths):
+            rec.inconclusive_because("shared-object thread workload did not finish")
+            return
+        rec.count("shared_object_concurrent_serializations", 3 * T)
+        rec.count("context_switches_inside_library", inj.switches)
+        case = {"kind": "value", "value": v, "threads": T}
+        rec.case("shared|%d|%d" % (T, i))
+        outs = [o for r in results for o in r] + [boundary.call(lib, C.canonserialize, v)]
+        for o in outs:
+            if not o.accepted:
+                rec.violation(boundary.mechanism("not-a-function-of-the-value", "canonserialize[shared object, threads]", "reference bytes", o),
+                              "serialising an ordinary document raised %s while other threads serialised the same object" % o.cls, case)
+                break
+            if o.value != ref:
+                rec.violation("not-a-function-of-the-value/canonserialize[shared object, threads]/bytes-differ",
+                              "a concurrent serialisation of the same object returned %d bytes, the reference has %d" % (len(o.value), len(ref)), case)
+                break
+        if boundary.fingerprint(v) != before:
+            rec.count("shared_object_changed_by_serialising")
+
+
 def run_shard(spec, rec, lib):
+    if spec.get("kind") == "shared_threads":
+        return run_shared_threads(spec, rec, lib)
     if spec.get("cwd") == "@nonascii":
         d = os.path.join(spec["scratch"], "dé中")
         os.makedirs(d, exist_ok=True)
